@@ -65,7 +65,7 @@ Definition self_evaluating (v : obj) : bool :=
   | Nil | T | Fix _ | Str _ => true
   | Big z => negb (is_int64 z)
   | Atom k tok => atom_ok k tok
-  | Sym s => is_keyword s && plain_sym s
+  | Sym s => (is_keyword s && plain_sym s) || existsb (String.eqb s) self_bound
   | Vec _ _ _ => quotable v
   | _ => false
   end.
@@ -93,7 +93,8 @@ Fixpoint loadable (v : obj) : bool :=
   match v with
   | Nil | T | Fix _ | Str _ | Big _ => true
   | Atom k tok => atom_ok k tok
-  | Sym s => is_keyword s && plain_sym s        (* any other symbol would have to be quoted [C19-symbol-unquoted] *)
+  | Sym s => (is_keyword s && plain_sym s)      (* any other symbol would have to be quoted [C19-symbol-unquoted] *)
+             || existsb (String.eqb s) self_bound   (* ... unless it is a constant bound to itself *)
   | L xs => negb (match xs with [] => true | _ => false end) && forallb loadable xs
   | Dot xs tl => negb (match xs with [] => true | _ => false end) && forallb loadable xs && loadable tl
                  && match tl with Nil | L _ | Dot _ _ => false | _ => true end
